@@ -207,6 +207,7 @@ package signedexchange
 //@   may_panic
 //@   returns (decoded, err)
 //@   requires e != nil && signature != nil
+//@   ensures[payload-is-the-decoders-output] err == nil ==> exists rd io.Reader, r io.Reader :: {miDecoderFor(rd, r, hdrGet(e.ResponseHeaders, e.Version == version.Version1b1 ? "MI-Draft2" : "Digest"), (e.Version == version.Version1b1 ? mice.Draft02Encoding : mice.Draft03Encoding))} miDecoderFor(rd, r, hdrGet(e.ResponseHeaders, e.Version == version.Version1b1 ? "MI-Draft2" : "Digest"), (e.Version == version.Version1b1 ? mice.Draft02Encoding : mice.Draft03Encoding)) && send(r) == len(e.Payload) && (forall i int :: 0 <= i && i < len(e.Payload) ==> sdata(r)[i] == e.Payload[i]) && readAllOf(bytes(decoded), rd)
 //@   ensures[integrity-scheme] err == nil ==> (e.Version == version.Version1b1 ==> signature.Integrity == "mi-draft2" && hdrGet(e.ResponseHeaders, "MI-Draft2") != "") && (e.Version != version.Version1b1 ==> signature.Integrity == "digest/mi-sha256-03" && hdrGet(e.ResponseHeaders, "Digest") != "")
 //@   assigns nothing
 
